@@ -6,6 +6,7 @@ import (
 	"io"
 	"math/big"
 	"sync"
+	"syscall"
 
 	"gitlab.com/yawning/secp256k1-voi/secec"
 
@@ -172,6 +173,21 @@ func (f *fixedReader) Read(p []byte) (int, error) {
 func (f *fixedReader) Consumed() int { return f.pos }
 
 var errScripted = errors.New("scripted entropy failure")
+
+// tempErr is an error of the "temporary / timeout" class (EAGAIN, EINTR, a deadline):
+// a read error is a read error - the signer must abort, not retry into a partly filled
+// buffer.
+type tempErr struct{ msg string }
+
+func (e tempErr) Error() string   { return e.msg }
+func (e tempErr) Temporary() bool { return true }
+func (e tempErr) Timeout() bool   { return true }
+
+// readerErrors are the failure values the scripted readers end with.
+func readerErrors() []error {
+	return []error{errScripted, nil /* io.EOF */, io.ErrUnexpectedEOF, io.ErrNoProgress, io.ErrClosedPipe, syscall.EAGAIN, syscall.EINTR,
+		tempErr{"scripted temporary failure"}, fmt.Errorf("wrapped: %w", syscall.EAGAIN), fmt.Errorf("wrapped: %w", tempErr{"inner temporary failure"})}
+}
 
 // repeatReader returns a repeating pattern forever.
 type repeatReader struct {
